@@ -140,6 +140,11 @@ def execute(c):
             kw["padding"] = c["pad"][0]
         if c["align"]:
             kw["align"] = c["align"][0]
+        if (c["dx"] + 2 * c["dy"] + len(c["pair"])) % 2 == 0:
+            # history: earlier in the process somebody asked for the AUTHORITY-axis-order transformers of this pair (the transformer cache is keyed
+            # by pair and axis-order flag; planning must get the x,y-ordered ones whatever was requested before)
+            src.crs.transformer_to_crs(dst.crs, always_xy=False)
+            dst.crs.transformer_to_crs(src.crs, always_xy=False)
         rr = compute_reproject_roi(src, dst, **kw)
         ev["paste_ok"] = bool(rr.paste_ok)
         ev["o"] = {"roi_src": roi4(rr.roi_src), "roi_dst": roi4(rr.roi_dst), "shrink": int(rr.read_shrink) if float(rr.read_shrink).is_integer() else -1,
